@@ -66,6 +66,7 @@ func Parse(filename string, data []byte) (*File, error) {
 	}
 
 	seen := make(map[string]bool) // names as recorded in the file
+	nameBytes := 0                // total length of the names seen
 	for i := uint32(0); i < numHash; i++ {
 		headOff := hdrLen + hashOff + i*4
 		head := m.load32(headOff)
@@ -73,6 +74,13 @@ func Parse(filename string, data []byte) (*File, error) {
 		for off != 0 {
 			ename, next, v, ok := m.entryAt(off)
 			if !ok {
+				return corrupt()
+			}
+			// Records do not overlap, so the names of a well-formed file add
+			// up to less than its size. (Otherwise a damaged file in which
+			// records overlap could make us copy far more than its size.)
+			nameBytes += len(ename)
+			if nameBytes > len(data) {
 				return corrupt()
 			}
 			if seen[string(ename)] {
